@@ -54,6 +54,20 @@ def scripts_for(tier, seed):
     from . import saveload, joins, cs
     sl = [s for s in saveload.content_scripts(tier, rng, 82000000) + saveload.random_scripts(tier, rng, 82500000, 100 if q else 1500)
           if s["marker"] == "simple"]
+    # several live entities carrying a copy of one marker id (inserted by hand), allocator maintenance, then
+    # lookups and loads by that id: which entity wins must not depend on hash seeds
+    for i in range(40 if q else 400):
+        k = rng.randint(3, 12)
+        ops = [{"o": "create", "w": 0, "a": i, "b": None} for _ in range(k)]
+        ops.append({"o": "mark", "w": 0, "h": 0})
+        for j in range(1, k):
+            if rng.random() < 0.8:
+                ops.append({"o": "copymark", "w": 0, "h": 0, "to": j})
+        ops.append({"o": "amaintain", "w": 0})
+        ops.append({"o": "resolve", "w": 0, "m": 0})
+        ops.append({"o": "loadsynth", "w": 0, "recs": [{"m": 0, "a": 7, "b": None, "r": None}], "fmt": "json"})
+        ops.append({"o": "save", "w": 0, "rec": False, "fmt": "json"})
+        sl.append({"tid": 82900000 + i, "marker": "simple", "worlds": 1, "ops": ops})
     out["sl"] = sl
     js = [s for s in joins.gen_scripts(seed, tier, False)]
     rng.shuffle(js)
